@@ -5,7 +5,7 @@
    (immutable) graph below its cell. *)
 From PL Require Export Base.Chars.
 From Coq Require Import String.
-Open Scope N_scope.
+Local Open Scope N_scope.
 
 Inductive lockind := LNative | LPrelude | LStdin | LFile (path : text).
 
